@@ -153,7 +153,11 @@ class Tensor:
                 result = Tensor(np.squeeze(result.value, axis=tuple(to_squeeze)))
         else:
             result = self
-        for axis, value in non_scalar_indices:
+        # A Gather leaves the axes in front of its axis in place whatever the rank of the index, so the
+        # remaining indices are applied from the last axis to the first; the axes removed above
+        # (to_squeeze) shift the numbers of the axes behind them.
+        for axis, value in reversed(non_scalar_indices):
+            axis -= sum(1 for a in to_squeeze if a < axis)
             result = op.Gather(result, value, axis=axis)
 
         return result
